@@ -263,3 +263,87 @@ func alterLeaf(leaf reflect.Value, variant int) (string, bool) {
 	}
 	return "", false
 }
+
+// NumericExtremes returns copies of the request struct v in which exactly one numeric leaf (at any
+// depth, including the elements of slices and named integer types) is set to an extreme value.
+func NumericExtremes(v interface{}) (labels []string, alts []interface{}) {
+	if v == nil {
+		return nil, nil
+	}
+	rv := reflect.ValueOf(v)
+	type leaf struct {
+		path []interface{} // int = struct field index, "elem" = slice element 0
+		name string
+		kind reflect.Kind
+	}
+	var leaves []leaf
+	var walk func(t reflect.Type, path []interface{}, name string)
+	walk = func(t reflect.Type, path []interface{}, name string) {
+		switch t.Kind() {
+		case reflect.Struct:
+			for i := 0; i < t.NumField(); i++ {
+				f := t.Field(i)
+				if f.PkgPath != "" {
+					continue
+				}
+				walk(f.Type, append(append([]interface{}{}, path...), i), name+"."+f.Name)
+			}
+		case reflect.Slice:
+			walk(t.Elem(), append(append([]interface{}{}, path...), "elem"), name+"[0]")
+		case reflect.Int, reflect.Int8, reflect.Int16, reflect.Int32, reflect.Int64,
+			reflect.Uint, reflect.Uint8, reflect.Uint16, reflect.Uint32, reflect.Uint64:
+			leaves = append(leaves, leaf{path, name, t.Kind()})
+		}
+	}
+	walk(rv.Type(), nil, "")
+	for _, lf := range leaves {
+		signed := []int64{-1 << 63, -1 << 62, -1 << 31, -129, -3, -1, 0, 4, 127, 128, 255, 256, 1 << 31, 1<<63 - 1}
+		for _, x := range signed {
+			cp := reflect.New(rv.Type()).Elem()
+			cp.Set(reflect.ValueOf(deepCopyJSONFree(rv)))
+			cur := cp
+			ok := true
+			for _, p := range lf.path {
+				switch q := p.(type) {
+				case int:
+					cur = cur.Field(q)
+				case string:
+					if cur.Len() == 0 {
+						cur.Set(reflect.MakeSlice(cur.Type(), 1, 1))
+					} else {
+						// never write into a backing array shared with the original
+						fresh := reflect.MakeSlice(cur.Type(), cur.Len(), cur.Len())
+						reflect.Copy(fresh, cur)
+						cur.Set(fresh)
+					}
+					cur = cur.Index(0)
+				}
+				if !cur.IsValid() {
+					ok = false
+					break
+				}
+			}
+			if !ok || !cur.CanSet() {
+				continue
+			}
+			switch lf.kind {
+			case reflect.Int, reflect.Int8, reflect.Int16, reflect.Int32, reflect.Int64:
+				if cur.OverflowInt(x) {
+					continue
+				}
+				cur.SetInt(x)
+			default:
+				if x < 0 || cur.OverflowUint(uint64(x)) {
+					continue
+				}
+				cur.SetUint(uint64(x))
+			}
+			labels = append(labels, fmt.Sprintf("param%s=%d", lf.name, x))
+			alts = append(alts, cp.Interface())
+		}
+	}
+	return
+}
+
+// deepCopyJSONFree returns rv's value (struct copy; slices are re-allocated where written).
+func deepCopyJSONFree(rv reflect.Value) interface{} { return rv.Interface() }
